@@ -707,6 +707,51 @@ theorem simStep (nL : Nat) (IH : ∀ m, m < nL → SimAt m) : SimAt nL := by
           | none => simp
         | _ => simp
       | clo => simp
+    | tupmap =>
+      cases hv with
+      | data u =>
+        cases u with
+        | tup as =>
+          refine ResR.bind (body_rel henv ihb (fun _ r => asData r) (fun _ _ _ h => h.asData) (as.map (·.2))) ?_
+          intro rs rs' hrs; subst hrs; simp; exact ValR.data _
+        | _ => simp
+      | clo => simp
+    | sum =>
+      cases hv with
+      | data u =>
+        cases u with
+        | set xs =>
+          refine ResR.bind (body_rel henv ihb (fun _ r => numOf r)
+            (fun _ a b h => by cases h <;> exact ResR.refl_eq _) xs) ?_
+          intro rs rs' hrs; subst hrs; exact mkNum_rel _
+        | _ => simp
+      | clo => simp
+    | max =>
+      cases hv with
+      | data u =>
+        cases u with
+        | set xs =>
+          simp only
+          split
+          · simp
+          · refine ResR.bind (body_rel henv ihb (fun _ r => keyOf r)
+              (fun _ a b h => by cases h <;> exact ResR.refl_eq _) xs) ?_
+            intro rs rs' hrs; subst hrs; simp; exact ValR.data _
+        | _ => simp
+      | clo => simp
+    | min =>
+      cases hv with
+      | data u =>
+        cases u with
+        | set xs =>
+          simp only
+          split
+          · simp
+          · refine ResR.bind (body_rel henv ihb (fun _ r => keyOf r)
+              (fun _ a b h => by cases h <;> exact ResR.refl_eq _) xs) ?_
+            intro rs rs' hrs; subst hrs; simp; exact ValR.data _
+        | _ => simp
+      | clo => simp
   | cond _ ih =>
     intro nR envL envR henv
     simp only [SimGoal, evalE]
